@@ -28,11 +28,11 @@ pub fn setup_irr(ctx: &mut Ctx, db: Db) -> SharedIrr {
 
 fn db_cfg(ctx: &mut Ctx) -> GenCfg {
     if ctx.tier == Tier::Thorough && ctx.chance(1, 40) {
-        GenCfg { max_as: 2_600, max_sets: 6, max_routes_per_as: 2 }
+        GenCfg { max_as: 2_600, max_sets: 6, max_routes_per_as: 2, rich_filter_sets: false }
     } else if ctx.tier == Tier::Thorough {
-        GenCfg { max_as: 40, max_sets: 10, max_routes_per_as: 6 }
+        GenCfg { max_as: 40, max_sets: 10, max_routes_per_as: 6, rich_filter_sets: ctx.chance(1, 4) }
     } else {
-        GenCfg { max_as: 10, max_sets: 6, max_routes_per_as: 4 }
+        GenCfg { max_as: 10, max_sets: 6, max_routes_per_as: 4, rich_filter_sets: ctx.chance(1, 4) }
     }
 }
 
@@ -186,6 +186,12 @@ fn run_c11(ctx: &mut Ctx) -> Verdict {
     if st.queries.len() > 1000 {
         ctx.count("probe.more_than_1000_queries_in_one_evaluation");
     }
+    if st.bytes_out > 8192 {
+        ctx.count("probe.more_than_8_KiB_of_responses_in_one_run");
+    }
+    if st.zero_len_reads > 10_000 {
+        return Verdict::violation("evaluation-spins/reads-into-a-full-buffer", format!("expression {expr}: the client asked FakeIrrd for 0 bytes more than 10000 times in a row (its receive buffer is full and never drained); on a real socket it would spin for ever"));
+    }
     ctx.sim_time_ns = 0;
     match (&want, &got) {
         (Ok(w), Ok(g)) => {
@@ -217,7 +223,7 @@ fn run_c11(ctx: &mut Ctx) -> Verdict {
 /// sequence is evaluated on one shared evaluator and, afterwards, on a fresh one; the two results
 /// must be the same - also for evaluations that met failing queries themselves.
 fn run_c17_persistent(ctx: &mut Ctx) -> Verdict {
-    let cfg = if ctx.tier == Tier::Thorough { GenCfg { max_as: 30, max_sets: 8, max_routes_per_as: 5 } } else { GenCfg { max_as: 8, max_sets: 5, max_routes_per_as: 3 } };
+    let cfg = if ctx.tier == Tier::Thorough { GenCfg { max_as: 30, max_sets: 8, max_routes_per_as: 5, rich_filter_sets: false } } else { GenCfg { max_as: 8, max_sets: 5, max_routes_per_as: 3, rich_filter_sets: false } };
     let db = gen_db(ctx, &cfg);
     let n = 2 + ctx.pick(if ctx.tier == Tier::Thorough { 11 } else { 7 });
     let exprs: Vec<String> = (0..n).map(|_| gen_query_expr(ctx, &db)).collect();
@@ -292,12 +298,91 @@ fn run_c17_persistent(ctx: &mut Ctx) -> Verdict {
     Verdict::Pass
 }
 
+/// C17, long histories: 12-48 evaluations on one evaluator, drawn from a small pool of expressions
+/// over a database whose filter-sets may hold unevaluable constructs (the evaluation then unwinds
+/// out of the evaluator, as it does under the agent's catch_unwind) or very long prefix lists.
+/// Every evaluation must equal the reference, whatever number of failed or unwound ones came before.
+fn run_c17_long(ctx: &mut Ctx) -> Verdict {
+    let cfg = GenCfg { max_as: 6, max_sets: 4, max_routes_per_as: 3, rich_filter_sets: true };
+    let db = gen_db(ctx, &cfg);
+    let mut pool: Vec<String> = (0..(1 + ctx.pick(4))).map(|_| gen_query_expr(ctx, &db)).collect();
+    let fs: Vec<String> = db.filter_sets.keys().cloned().collect();
+    pool.push(ctx.tape.choose(&fs).clone());
+    if ctx.pick(2) == 0 {
+        pool.push(format!("{} OR {}", ctx.tape.choose(&fs), ctx.tape.choose(&fs)));
+    }
+    let n = 12 + ctx.pick(if ctx.tier == Tier::Thorough { 90 } else { 37 });
+    // histories are lumpy: the same expression tends to be evaluated several times in a row
+    let mut seq = Vec::with_capacity(n);
+    let mut cur = ctx.pick(pool.len());
+    for _ in 0..n {
+        if ctx.pick(3) == 0 {
+            cur = ctx.pick(pool.len());
+        }
+        seq.push(cur);
+    }
+    ev!(ctx, "db {}", describe(&db).chars().take(2000).collect::<String>());
+    ev!(ctx, "pool {:?} sequence {seq:?}", pool.iter().map(|e| e.chars().take(120).collect::<String>()).collect::<Vec<_>>());
+    let wants: Vec<Result<Vec<String>, String>> = pool.iter().map(|e| reference_eval(&db, e)).collect();
+    let irr = setup_irr(ctx, db);
+    let mut ev = match RpslEvaluator::new("irrd.sim", 43) {
+        Ok(e) => e,
+        Err(e) => {
+            uninstall();
+            return Verdict::violation("connect-failed", format!("{e}"));
+        }
+    };
+    let gots: Vec<Result<Vec<String>, String>> = seq.iter().map(|k| lib_eval(&mut ev, &pool[*k])).collect();
+    drop(ev);
+    uninstall();
+    if irr.lock().unwrap().zero_len_reads > 10_000 {
+        return Verdict::violation("evaluation-spins/reads-into-a-full-buffer", "the client kept asking FakeIrrd for 0 bytes".to_string());
+    }
+    let (mut failed, mut unwound) = (0, 0);
+    for (i, (k, got)) in seq.iter().zip(&gots).enumerate() {
+        let want = &wants[*k];
+        let same = match (want, got) {
+            (Ok(w), Ok(g)) => w == g,
+            (Err(_), Err(_)) => true,
+            _ => false,
+        };
+        if !same {
+            return Verdict::violation(
+                "history-dependent-result/long-history",
+                format!(
+                    "evaluation #{i} of {} after {failed} failed evaluations ({unwound} of them unwound by a panic) on the same evaluator: expected {}, got {}",
+                    pool[*k].chars().take(200).collect::<String>(),
+                    match want { Ok(w) => format!("{} ranges", w.len()), Err(e) => format!("error ({e})") },
+                    match got { Ok(g) => format!("{} ranges", g.len()), Err(e) => format!("error ({e})") },
+                ),
+            );
+        }
+        if let Err(e) = got {
+            failed += 1;
+            if e == "PANIC" {
+                unwound += 1;
+            }
+        }
+    }
+    ctx.nontrivial = true;
+    if unwound >= 16 {
+        ctx.count("probe.sixteen_or_more_unwound_evaluations_in_one_history");
+    }
+    if failed > 0 && gots.last().is_some_and(Result::is_ok) {
+        ctx.count("probe.clean_evaluation_after_a_failed_one");
+    }
+    Verdict::Pass
+}
+
 fn run_c17(ctx: &mut Ctx) -> Verdict {
     crate::ssim::quiet_panics();
+    if ctx.pick(8) == 0 {
+        return run_c17_long(ctx);
+    }
     if ctx.pick(3) == 0 {
         return run_c17_persistent(ctx);
     }
-    let cfg = if ctx.tier == Tier::Thorough { GenCfg { max_as: 30, max_sets: 8, max_routes_per_as: 5 } } else { GenCfg { max_as: 8, max_sets: 5, max_routes_per_as: 3 } };
+    let cfg = if ctx.tier == Tier::Thorough { GenCfg { max_as: 30, max_sets: 8, max_routes_per_as: 5, rich_filter_sets: false } } else { GenCfg { max_as: 8, max_sets: 5, max_routes_per_as: 3, rich_filter_sets: false } };
     let db = gen_db(ctx, &cfg);
     let n = 2 + ctx.pick(if ctx.tier == Tier::Thorough { 9 } else { 5 });
     let exprs: Vec<String> = (0..n).map(|_| gen_query_expr(ctx, &db)).collect();
@@ -404,7 +489,7 @@ pub static C11: PropSpec = PropSpec {
     runs: |t| if t == Tier::Thorough { 4_000_000 } else { 30_000 },
     enumerated: |_| 0,
     run: run_c11,
-    rule: "generated IRR database (nested and cyclic as-sets, hierarchical names, unknown nested sets, ASes with only IPv4 / only IPv6 / no routes, duplicate prefixes, nested route-sets, filter-sets referring to other names; thorough: an as-set with up to 2600 members, crossing irrc's 1000-in-flight window) and an mp-filter expression over its names (AND/OR/NOT, parentheses, literal prefix sets, all range operators, occasionally unknown names); responses are cut by seeded read sizes (1-7 bytes / mixed / whole) and writes may be partial. One run in 40 is a C01-style history of real agent runs (router state == reference set split by family). One run in six evaluates another (possibly unevaluable) expression on the same evaluator first. One run in 16 evaluates through the `bgpfu` executable (child process, loopback TCP to FakeIrrd) and compares its printed ranges. Oracle: ranges equal the reference evaluation (rpsl's evaluator over a resolver that reads the database directly). Non-trivial = the reference set is non-empty; distinct = distinct event-log hash",
+    rule: "generated IRR database (nested and cyclic as-sets, hierarchical names, unknown nested sets, ASes with only IPv4 / only IPv6 / no routes, duplicate prefixes, nested route-sets, filter-sets referring to other names, in one run of four 1-4 filter-sets some of which hold unevaluable constructs or a literal list of 300-1200 prefixes (5-20 KB of object text); thorough: an as-set with up to 2600 members, crossing irrc's 1000-in-flight window) and an mp-filter expression over its names (AND/OR/NOT, parentheses, literal prefix sets, all range operators, occasionally unknown names); responses are cut by seeded read sizes (1-7 bytes / mixed / whole) and writes may be partial. One run in 40 is a C01-style history of real agent runs (router state == reference set split by family). One run in six evaluates another (possibly unevaluable) expression on the same evaluator first. One run in 16 evaluates through the `bgpfu` executable (child process, loopback TCP to FakeIrrd) and compares its printed ranges. Oracle: ranges equal the reference evaluation (rpsl's evaluator over a resolver that reads the database directly). Non-trivial = the reference set is non-empty; distinct = distinct event-log hash",
     components: COMPONENTS_C11,
     assumptions: &[
         "rpsl expression semantics and generic-ip set algebra are trusted (used on both sides)",
@@ -424,7 +509,7 @@ pub static C17: PropSpec = PropSpec {
     runs: |t| if t == Tier::Thorough { 3_000_000 } else { 25_000 },
     enumerated: |_| 0,
     run: run_c17,
-    rule: "2-10 expressions evaluated in sequence on one evaluator (one pipelined connection); 0-3 IRR error responses (key not found, not unique, other) injected at seeded query ordinals; filter-set responses optionally carry two objects (the resolver stops at the first); seeded read segmentation. Oracle: every evaluation whose own queries were not faulted equals the reference (= fresh-connection result), in particular those that follow a faulted one. One run in three uses the differential form instead: 1-6 queries (routes of an AS, members of a set) fail every time on every connection, 2-8 (thorough: 2-12) expressions are evaluated on one evaluator and then each on a fresh one; the two results must be the same, also for evaluations that met failing queries themselves. Non-trivial = at least a second evaluation was checked; distinct = distinct event-log hash",
+    rule: "2-10 expressions evaluated in sequence on one evaluator (one pipelined connection); 0-3 IRR error responses (key not found, not unique, other) injected at seeded query ordinals; filter-set responses optionally carry two objects (the resolver stops at the first); seeded read segmentation. Oracle: every evaluation whose own queries were not faulted equals the reference (= fresh-connection result), in particular those that follow a faulted one. One run in three uses the differential form instead: 1-6 queries (routes of an AS, members of a set) fail every time on every connection, 2-8 (thorough: 2-12) expressions are evaluated on one evaluator and then each on a fresh one; the two results must be the same, also for evaluations that met failing queries themselves. One run in eight is a long history: 12-48 (thorough: 12-101) evaluations on one evaluator drawn from a pool of 2-6 expressions over a database with 1-4 filter-sets, some holding PeerAS / an AS-path regular expression / an attribute match (the evaluation unwinds out of the evaluator, as under the agent's catch_unwind) or a literal list of 300-1200 prefixes; each must equal the reference however many failed or unwound evaluations came before. Non-trivial = at least a second evaluation was checked; distinct = distinct event-log hash",
     components: COMPONENTS,
     assumptions: &["an evaluation one of whose own queries was answered with an injected error is not compared (bgpfu-lib sinks per-item errors, so it may succeed with data missing)"],
     watchdog_s: 60,
